@@ -348,6 +348,7 @@ void Socket::writeRedirect(const QByteArray &path, bool permanent)
 {
     setStatusCode(permanent ? MovedPermanently : Found);
     setHeader("Location", path);
+    setHeader("Content-Length", "0");
     writeHeaders();
     close();
 }
